@@ -397,11 +397,13 @@ impl ScopeReturnStatus {
     }
 
     pub fn eq_for_signature_checking(&self, rhs: &Self) -> Result<bool> {
-        if self == rhs {
-            return Ok(true);
-        }
-
+        // when both sides carry a type, `eq_complex` below starts with the very same `==`:
+        // doing it here as well doubles the work at every level of a nested function type.
         let (Some(lhs), Some(rhs)) = (self.get_type(), rhs.get_type()) else {
+            if self == rhs {
+                return Ok(true);
+            }
+
             bail!("not applicable")
         };
 
